@@ -659,6 +659,14 @@ def fmt_percent(ctx: Ctx, fmt, arg):
             return fmt % arg
         if fmt in (b"%d", "%d") and len(args) == 1 and isinstance(args[0], (SymInt,)):
             return SymStr(i_fmt(args[0].e), kind)
+        # "literal%sliteral" % string: plain concatenation
+        if len(args) == 1 and kind_of_strlike(args[0]) == kind and fmt.count(b"%" if kind == "bytes" else "%") == 1 and (b"%s" if kind == "bytes" else "%s") in fmt:
+            pre, post = fmt.split(b"%s" if kind == "bytes" else "%s")
+            parts = [str_to_z3(pre)] if pre else []
+            parts.append(str_to_z3(args[0]))
+            if post:
+                parts.append(str_to_z3(post))
+            return mk_str(parts[0] if len(parts) == 1 else z3.Concat(*parts), kind)
         # opaque formatting result
         return SymStr(ctx.fresh("fmt", Str), kind)
     raise Unsupported("% with symbolic format")
